@@ -55,10 +55,10 @@ type E struct {
 }
 
 var (
-	rootNames = []string{"a", "b", "c", "d", "e", "s.x", "s.y"}
+	rootNames = []string{"a", "b", "c", "d", "e", "s.x", "s.y", "l.0", "l.1"}
 	envNames  = []string{"g", "h", "a", "s.x"}
 	resNames  = []string{"m", "n", "a", "g", "s.z"}
-	allNames  = []string{"a", "b", "c", "d", "e", "s.x", "s.y", "g", "h", "m", "n", "s.z", "z", "s"}
+	allNames  = []string{"a", "b", "c", "d", "e", "s.x", "s.y", "g", "h", "m", "n", "s.z", "z", "l.0", "l.1", "l", "s"}
 )
 
 func (e *E) tok() string {
@@ -342,18 +342,26 @@ func (e *E) Setup() {
 	for _, name := range e.referenced() {
 		// ("z" stays unknown on purpose; "s" is the name of a dictionary, defining it as a
 		// primitive next to "s.x" in the same layer would be a contradictory input)
-		if e.known(name) || name == "z" || name == "s" || !t.Chance(2, 3, "define-referenced") {
+		if e.known(name) || name == "z" || name == "s" || name == "l" || !t.Chance(2, 3, "define-referenced") {
 			continue
 		}
 		switch t.Choose(3, "define-layer") {
 		case 0:
 			// ("s" is the name of the nested dictionary: never a primitive)
-			if name != "s" && (!strings.Contains(name, ".") || strings.HasPrefix(name, "s.")) {
+			if name == "l.1" {
+				if _, ok := e.root["l.0"]; !ok {
+					continue // a list has no holes
+				}
+			}
+			if name != "s" && (!strings.Contains(name, ".") || strings.HasPrefix(name, "s.") || strings.HasPrefix(name, "l.")) {
 				if _, lit := e.root["s"]; !(lit && strings.HasPrefix(name, "s.")) {
 					e.root[name] = &setting{lit: e.prim()}
 				}
 			}
 		case 1:
+			if strings.HasPrefix(name, "l.") {
+				continue // (list elements only live in the root and in resolvers)
+			}
 			if len(e.envs) == 0 {
 				e.envs = append(e.envs, map[string]*setting{})
 			}
